@@ -1,4 +1,5 @@
 import I18n.Lemmas.CharsetCodec
+import I18n.Lemmas.CharsetCodecRev
 import I18n.Lemmas.CharsetCheck
 /-!
 # C20: side conditions of the charmap theorems on the generated tables, and the tables against the system iconv
@@ -32,6 +33,14 @@ def koi8tTable : List Nat := iconv_KOI8_T.map fun o => o.getD undefinedCp
 
 theorem koi8t_injective : injBool koi8tTable = true := by decide +kernel
 theorem koi8t_length : koi8tTable.length = 256 := by decide +kernel
+
+/-- `charmap_build` takes its trie form for glibc's KOI8-T table too (so U+FFFE, the marker of its undefined bytes, never encodes) -/
+theorem koi8t_trie : needDict koi8tTable = false := by decide +kernel
+
+theorem trie_of_mem (kv : List Nat × List Nat) (h : kv ∈ charmaps) : needDict kv.2 = false := by
+  have := charmaps_trie
+  rw [List.all_eq_true] at this
+  simpa using this kv h
 
 theorem injective_of_mem (kv : List Nat × List Nat) (h : kv ∈ charmaps) : InjectiveOnDefined kv.2 := by
   have := charmaps_injective
